@@ -70,6 +70,15 @@ def main_for(scn, prop, argv):
     args = ap.parse_args(argv)
     if os.environ.get("VERIF_TIER") in ("quick", "thorough"):
         args.tier = os.environ["VERIF_TIER"]
+    rp = None
+    if args.replay:
+        # a replay file names the tier and seed it was found under: the scenario's setup (job lists, thresholds) may depend on them
+        with open(args.replay) as f:
+            rp = json.load(f)
+        if rp.get("tier") in ("quick", "thorough"):
+            args.tier = rp["tier"]
+        if args.seed is None and isinstance(rp.get("seed"), int):
+            args.seed = rp["seed"]
     seed = args.seed
     if seed is None:
         seed = int(os.environ["VERIF_SEED"]) if os.environ.get("VERIF_SEED", "").lstrip("-").isdigit() else DEFAULT_SEED[args.tier]
@@ -81,8 +90,6 @@ def main_for(scn, prop, argv):
     scn.setup(ctx)
 
     if args.replay:
-        with open(args.replay) as f:
-            rp = json.load(f)
         res = scn.execute(rp["plan"])
         vs = [v for v in res["violations"] if v["property"] == prop]
         want = json.dumps(rp.get("class"), sort_keys=True)
@@ -169,7 +176,7 @@ def main_for(scn, prop, argv):
         path = os.path.join(build.VERIF, "replays", "%s-%d-%s-%s.json" % (prop, seed, plan_hash(small), runner.sha(k)[:6]))
         os.makedirs(os.path.dirname(path), exist_ok=True)
         with open(path, "w") as f:
-            json.dump({"property": prop, "scenario": scn.NAME, "seed": seed, "class": json.loads(k), "msg": vv[0]["msg"],
+            json.dump({"property": prop, "scenario": scn.NAME, "seed": seed, "tier": ctx.tier, "class": json.loads(k), "msg": vv[0]["msg"],
                        "hash": rr["hash"], "plan": small, "detail": rr.get("detail")}, f, indent=1, sort_keys=True)
         l1, c1 = _replay_once(prop, path)
         l2, c2 = _replay_once(prop, path)
